@@ -192,3 +192,12 @@ package xrep
 // only about the socket it was called on ----
 //@ func (*socket).SendMsg
 //@   ensures result == protocol.ErrClosed ==> s.closed
+
+// ---- generated wrapper contracts (tools/gen_wrapper_contracts.py) ----
+//@ func NewSocket
+//@   ghost pr = result at call:NewProtocol#1
+//@   ghost so = result at call:MakeSocket#1
+//@   before call:NewProtocol#1 assert callee_is("protocol/xrep.NewProtocol")
+//@   before call:MakeSocket#1 assert arg0 == pr
+//@   ensures isnil(result1) && result0 == so
+// ---- end generated wrapper contracts ----
